@@ -88,6 +88,9 @@ type storeSpec struct {
 	// client that fails at its Disturb-th write - on every handler and on the push
 	// writer.  What a failed export leaves behind must not show in the next one.
 	Disturb int `json:"disturb,omitempty"`
+	// RealPush: the store is also pushed through Exporter.PushMetrics to real
+	// collectd / graphite / statsd listeners on the loopback
+	RealPush bool `json:"real_push,omitempty"`
 }
 
 // pollCtx is a request context that reports cancellation from its k-th poll on.
@@ -813,7 +816,7 @@ func pick(r *vlib.Rand, pct bool, pool []string) string {
 func genStore(r *vlib.Rand, nonfinite, seps bool) storeSpec {
 	q := vlib.Q
 	pct := r.Chance(55)
-	sp := storeSpec{Kind: "store", Host: q(pick(r, pct, hostPool)), Omit: r.Chance(30), Interval: int64(vlib.Pick(r, []int{0, 1, 60, 300})), Disturb: vlib.Pick(r, []int{0, 0, 1, 1, 2, 3, 4, 5}),
+	sp := storeSpec{Kind: "store", Host: q(pick(r, pct, hostPool)), Omit: r.Chance(30), Interval: int64(vlib.Pick(r, []int{0, 1, 60, 300})), Disturb: vlib.Pick(r, []int{0, 0, 1, 1, 2, 3, 4, 5}), RealPush: r.Chance(20),
 		GPrefix: q(pick(r, pct, prefixPool)), SPrefix: q(pick(r, pct, prefixPool)), CPrefix: q(pick(r, pct, prefixPool))}
 	nm := 1 + r.Intn(5)
 	used := map[string]bool{}
@@ -933,6 +936,11 @@ func runStore(out *vlib.Out, sp storeSpec, stream string) {
 	o := export(st, sp)
 	for _, v := range check(sp, built, o) {
 		out.Violate(v.class, v.what, sp)
+	}
+	if sp.RealPush {
+		for _, v := range realPush(st, sp, o) {
+			out.Violate(v.class, v.what, sp)
+		}
 	}
 	js := "None"
 	if o.JSONCode == 200 {
